@@ -46,3 +46,13 @@ Theorem C14_critical_section_exclusive : forall tr s l t1 t2 e,
   lrun [] tr = Some s -> In (l, t1, true) s -> In (l, t2, e) s -> t1 = t2.
 Proof. exact critical_section_exclusive. Qed.
 Print Assumptions C14_critical_section_exclusive.
+
+(* trace-level reading: critical sections of one lock are not interleaved when one of them is exclusive *)
+From SE Require Import Spec.SectionSpec Proofs.SectionProofs.
+Theorem C14_exclusive_section_uninterrupted : stmt_exclusive_section_uninterrupted.
+Proof. exact exclusive_section_uninterrupted_ok. Qed.
+Print Assumptions C14_exclusive_section_uninterrupted.
+
+Theorem C14_shared_section_no_writer : stmt_shared_section_no_writer.
+Proof. exact shared_section_no_writer_ok. Qed.
+Print Assumptions C14_shared_section_no_writer.
